@@ -182,6 +182,44 @@ pub fn handle(op: &str, req: &Value) -> Option<Value> {
             let rec_tail: Vec<(u64, u64)> = rec.iter().copied().filter(|e| e.1 >= lo).collect();
             json!({"memory_log": mem_log, "recovered_log": rec, "differs": rec_tail != mem_log, "detail": detail})
         },
+        "raft_log_restart" => {
+            // follower with a WAL: a first leader installs the pre-log, a second AppendEntries follows, then the log is
+            // rebuilt from the WAL file alone and compared with what the node held in memory
+            use tensor_chain::raft_wal::{RaftRecoveryState, RaftWal};
+            let pre_terms: Vec<u64> = req["pre_terms"].as_array().into_iter().flatten().map(|x| x.as_u64().unwrap_or(1)).collect();
+            let prev = req["prev"].as_u64().unwrap_or(0);
+            let entry_terms: Vec<u64> = req["entry_terms"].as_array().into_iter().flatten().map(|x| x.as_u64().unwrap_or(1)).collect();
+            let node_term = req["node_term"].as_u64().unwrap_or(1);
+            let dir = std::env::var("VERIF_BUILD").unwrap_or_else(|_| "/verif/.build".into());
+            let dir = std::path::PathBuf::from(dir).join("replay-tmp").join(format!("l{}-{}", std::process::id(),
+                std::time::SystemTime::now().duration_since(std::time::UNIX_EPOCH).map(|d| d.as_nanos()).unwrap_or(0)));
+            let _ = std::fs::create_dir_all(&dir);
+            let wal_path = dir.join("n1.wal");
+            let t: Arc<MemoryTransport> = Arc::new(MemoryTransport::new("n1".to_string()));
+            let mut cfg = RaftConfig::default();
+            cfg.enable_fast_path = false;
+            cfg.auto_heartbeat = false;
+            let mem_log;
+            let resp;
+            {
+                let node = match RaftNode::with_wal("n1".to_string(), vec!["n2".into(), "n3".into()], t, cfg, &wal_path) {
+                    Ok(n) => n, Err(e) => return Some(json!({"error": e.to_string()})) };
+                let all: Vec<LogEntry> = pre_terms.iter().enumerate().map(|(i, t)| LogEntry::new(*t, 1 + i as u64, Block::default())).collect();
+                let ae0 = AppendEntries { term: node_term, leader_id: "n2".into(), prev_log_index: 0, prev_log_term: 0, entries: all, leader_commit: 0, block_embedding: None };
+                let _ = node.handle_message(&"n2".to_string(), &Message::AppendEntries(ae0));
+                let ents: Vec<LogEntry> = entry_terms.iter().enumerate().map(|(j, t)| LogEntry::new(*t, prev + 1 + j as u64, Block::default())).collect();
+                let ae1 = AppendEntries { term: req["ae_term"].as_u64().unwrap_or(0), leader_id: "n3".into(), prev_log_index: prev, prev_log_term: req["prev_term"].as_u64().unwrap_or(0),
+                    entries: ents, leader_commit: 0, block_embedding: None };
+                let r = node.handle_message(&"n3".to_string(), &Message::AppendEntries(ae1));
+                resp = format!("{r:?}").chars().take(200).collect::<String>();
+                mem_log = node.verif_log_and_vote().0;
+            }
+            let rec: Vec<(u64, u64)> = RaftWal::open(&wal_path).ok().and_then(|w| RaftRecoveryState::from_wal(&w).ok()).map(|s| {
+                s.recovered_log.iter().filter_map(|b| bitcode_entry(b)).collect()
+            }).unwrap_or_default();
+            let _ = std::fs::remove_dir_all(&dir);
+            json!({"memory_log": mem_log, "recovered_log": rec, "differs": rec != mem_log, "response": resp})
+        },
         "raft_node_restart" => {
             // node backed by a real WAL that already holds its (term, vote); one handler call; restart; compare
             use tensor_chain::raft_wal::{RaftRecoveryState, RaftWal, RaftWalEntry};
